@@ -624,6 +624,15 @@ func famSchema(tr *Trace, scratch string, seed int64, tier string, repo, nfpmBin
 			d["ipk"] = map[string]any{"alternatives": []any{map[string]any{"priority": "100", "target": "/t", "link_name": "/l"}}}
 		}},
 		{"depends=\"one\"", func(d map[string]any) { d["depends"] = "one" }},
+		{"ipk.alternatives[]=\"100:/usr/bin/vi:/usr/bin/vim\"", func(d map[string]any) {
+			d["ipk"] = map[string]any{"alternatives": []any{"100:/usr/bin/vi:/usr/bin/vim"}}
+		}},
+		{"contents[]=\"src:dst\"", func(d map[string]any) { d["contents"] = []any{root0 + "/src/bin:/usr/bin/probe"} }},
+		{"scripts=\"path\"", func(d map[string]any) { d["scripts"] = root0 + "/src/bin" }},
+		{"deb.triggers.interest=\"one\"", func(d map[string]any) { d["deb"] = map[string]any{"triggers": map[string]any{"interest": "one"}} }},
+		{"deb.fields=[list]", func(d map[string]any) { d["deb"] = map[string]any{"fields": []any{"Bugs: x"}} }},
+		{"changelog={map}", func(d map[string]any) { d["changelog"] = map[string]any{"file": "changelog.yaml"} }},
+		{"rpm.prefixes=\"/opt\"", func(d map[string]any) { d["rpm"] = map[string]any{"prefixes": "/opt"} }},
 		{"contents[].file_info.mtime=\"2020-01-01\"", func(d map[string]any) {
 			d["contents"] = []any{map[string]any{"src": root0 + "/src/bin", "dst": "/usr/bin/probe", "file_info": map[string]any{"mtime": "2020-01-01"}}}
 		}},
